@@ -22,7 +22,7 @@ var apis = []string{
 }
 
 func init() {
-	req := []string{"further_next_calls_after_exhaustion", "callback_rejections", "required_panics_seen", "aux_values_checked"}
+	req := []string{"further_next_calls_after_exhaustion", "callback_rejections", "outside_domain_cases_seen(not judged)", "aux_values_checked"}
 	for _, a := range apis {
 		req = append(req, "cases:"+a)
 	}
@@ -183,7 +183,7 @@ type kase struct {
 	auxName    string                          // FreqValue / InverseValue
 	auxCheck   func(canon, aux []int) string   // "" = consistent
 	mon        *cbMon
-	mustPanic  bool // the constructor is documented to panic
+	mustPanic  bool // the parameter is outside the documented domain (documented to panic): recorded only
 	predDriven bool
 
 	mk             func(arg []int) iface // constructors that take a slice / variadic ints: construct from this caller-owned slice
@@ -364,15 +364,15 @@ func (r *runner) run(k *kase) {
 		return
 	}
 	if k.mustPanic {
-		if pi != nil && tr.phase == "constructor" {
-			c.Obs("required_panics_seen", 1)
-			c.Obs("required_panic:"+k.api+"("+k.witness+"): "+pi.Value, 1)
-			return
+		// a parameter OUTSIDE the documented domain (the constructor says it cannot handle it): the property is
+		// silent about it, so whatever happens is recorded and nothing is judged
+		c.Obs("outside_domain_cases_seen(not judged)", 1)
+		if pi != nil {
+			c.Obs("outside_domain:"+k.api+"("+k.witness+") panics in "+tr.phase+": "+pi.Value, 1)
+		} else {
+			c.Obs(fmt.Sprintf("outside_domain:%s(%s) returns and yields %d objects", k.api, k.witness, len(tr.raw)), 1)
 		}
-		if pi == nil {
-			r.violate(k, "no-panic", fmt.Sprintf("the constructor returned; %s", show(tr.raw, 4)), "the constructor panics (documented: it cannot handle this parameter)")
-			return
-		}
+		return
 	}
 	if pi != nil {
 		if k.mon != nil && k.mon.runaway {
